@@ -185,14 +185,24 @@ def replay_hessian(vals, label):
     x0 = [0.2, 0.1]
     m.initial_values = (x0, 0.0)
     sol = m.integrate(t)
-    y = sol[1:, 1] + np.array([0.1, -0.2, 0.15, 0.05])
-    L = SquareLoss([0.8, 0.6], m, x0, 0.0, t, y, "Y")
+    noise = np.array([[0.1, -0.05], [-0.2, 0.1], [0.15, 0.05], [0.05, -0.1]])
+    bad = {}
     th = np.array([0.8, 0.6])
-    H = L.hessian(th)
     hh = 1e-5
-    FD = np.array([(L.sensitivity(th + hh * e) - L.sensitivity(th - hh * e)) / (2 * hh) for e in np.eye(2)])
-    err = float(np.max(np.abs(H - FD)))
-    return err > 1e-4, {"hessian": H.tolist(), "fd_of_gradient": FD.tolist(), "max_abs_err": err}
+    # one observed state, two in model order, two in NON-model order
+    for sel in ("Y", ["X", "Y"], ["Y", "X"]):
+        names = [sel] if isinstance(sel, str) else sel
+        cols = [["X", "Y"].index(s_) for s_ in names]
+        y = sol[1:, :][:, cols] + noise[:, :len(cols)]
+        if len(cols) == 1:
+            y = y.ravel()
+        L = SquareLoss([0.8, 0.6], m, x0, 0.0, t, y, sel)
+        H = L.hessian(th)
+        FD = np.array([(L.sensitivity(th + hh * e) - L.sensitivity(th - hh * e)) / (2 * hh) for e in np.eye(2)])
+        err = float(np.max(np.abs(H - FD)))
+        if err > 1e-4:
+            bad[str(sel)] = {"hessian": H.tolist(), "fd_of_gradient": FD.tolist(), "max_abs_err": err}
+    return bool(bad), bad
 
 
 class C20(Check):
